@@ -255,6 +255,22 @@ def check_validation(ctx, num=7):
         ctx.ob(num, "K14a", "parameter validation does not compare a float sum of probabilities with == / != (valid triples sum to one only up to rounding)", ok, f, a,
                detail=f"exact comparisons on a sum: {bad}" if bad else "tolerance-based (isclose) or inequality test")
     ctx.count_min("probability validation asserts in run_simulator", n_assert, 1)
+    # ... and the validation refuses nothing that is valid: besides the probabilities summing to one, the only constraint is 0 <= cpu_io_ratio <= 1
+    # (pool counts and sizes of any positive magnitude — sub-GB RAM included — are valid configurations)
+    pn = None
+    for n in own_nodes(f.node):
+        if isinstance(n, ast.Assign) and len(n.targets) == 1 and isinstance(n.targets[0], ast.Name) and isinstance(n.value, ast.Call) and norm.call_name(n.value) == "parse_args_with_defaults":
+            pn = n.targets[0].id
+    ratio_ok = {("cmp", "<=", "0", f"{pn}['cpu_io_ratio']"), ("cmp", "<=", f"{pn}['cpu_io_ratio']", "1"), ("cmp", "<=", f"{pn}['cpu_io_ratio']", "1.0"),
+                ("cmp", "<=", "0.0", f"{pn}['cpu_io_ratio']")}
+    for a in (n for n in own_nodes(f.node) if isinstance(n, ast.Assert)):
+        txt = norm.U(a.test)
+        if pn is None or f"{pn}[" not in txt or "_prob" in txt:
+            continue
+        atoms = norm.atoms_true(norm.nnf(a.test))
+        extra = [x for x in atoms if x not in ratio_ok]
+        ctx.ob(num, "K2", "the validation of a configuration refuses only what is invalid: probabilities that do not sum to one, a cpu_io_ratio outside [0, 1]", not extra, f, a,
+               construct="no further constraint on the parameters", detail=f"required by this assert: {sorted(norm.show(x) for x in atoms)}" + (f"; not a documented constraint: {sorted(norm.show(x) for x in extra)}" if extra else ""))
 
 
 def check_depletion_assert(ctx, num=9):
@@ -294,6 +310,9 @@ def run(ctx):
     from . import c09
     c09.check_container_ids(_Renumber(ctx, {2: 3}), 2)
     check_ops(ctx, 4)
+    # the order in which a pipeline's operators are listed (and therefore packed) is the DAG iteration: parents before children (C01#9)
+    from . import c01
+    c01.check_dag(_Renumber(ctx, {9: 4, 10: 4}))
     # with single-operator containers the operator handed out must be *ready* (parents complete): a child of a running parent
     # would be refused by the executor's dependency check when its container starts (naive / starter: the clause is C17#5)
     from . import c17
